@@ -13,6 +13,7 @@ import (
 	"syscall"
 
 	"verif/internal/core"
+	"verif/internal/iosim"
 	"verif/internal/rtsim"
 	"verif/internal/schedsim"
 )
@@ -34,6 +35,8 @@ func replay(path string) int {
 	switch head.Property {
 	case "C17":
 		return rtsim.ReplayFile(path)
+	case "C08":
+		return iosim.ReplayFile(path)
 	default:
 		return schedsim.ReplayFile(path)
 	}
@@ -78,6 +81,8 @@ func main() {
 		switch id {
 		case "C17":
 			code = rtsim.CheckC17(tier, seed)
+		case "C08":
+			code = iosim.CheckC08(tier, seed)
 		case "C13":
 			code = schedsim.CheckC13(schedsim.C13Options{Tier: tier, Seed: seed})
 		case "C14":
